@@ -220,8 +220,11 @@ def execute(item):
         acc.state((stream, mode, phase, tuple(sorted(vec.items())), seg['n']))
         if sr.status != 200:
             acc.outcome(('segment', sr.status))
+            acc.count(f'segment_status_{sr.status}')
+            acc.count(f'segment_not_200_{mode}')
             prev_end = None
             continue
+        acc.count(f'segment_200_{mode}')
         try:
             frag = bmff.Fragment(sr.body, f['init'])
         except bmff.Malformed as e:
